@@ -41,10 +41,15 @@ def isCorrupt (st : C19St) : Bool :=
     | some i, some c => i == c
     | _, _ => false)
 
+/-- the temp name of the next save: fresh (`os.CreateTemp`), or always the same
+    one if the regenerated list opens a deterministic temp name -/
+def tempName (st : C19St) : Name :=
+  if saveOps.any (fun o => match o with | .openFixed _ => true | _ => false) then 1 else st.nextName
+
 /-- a complete in-process Save of `new` -/
 def doSave (st : C19St) (new : Bytes) : C19St :=
-  let t := st.nextName
-  { st with fs := (run t new saveOps (st.fs, {})).1, nextName := t + 1, temps := st.temps ++ [t],
+  let t := tempName st
+  { st with fs := (run t new saveOps (st.fs, {})).1, nextName := st.nextName + 1, temps := if st.temps.contains t then st.temps else st.temps ++ [t],
             alt := none, corruptAny := false }
 
 def renamed (ops : List Op) : Bool := ops.any (fun o => match o with | .rename _ .path => true | _ => false)
@@ -96,20 +101,20 @@ def c19Step (st : C19St) (op impl : String) : C19St × String × String :=
       match saveOps.findIdx? (· == .hook) with
       | none => (doSave st (specBytes spec), "ok", "ok")
       | some h =>
-        let t := st.nextName
+        let t := tempName st
         let s := abortAt t (specBytes spec) deferredRemove saveOps (h + 1) st.fs
         let done := renamed (saveOps.take (h + 1))
-        ({ st with fs := s.1, nextName := t + 1, temps := st.temps ++ [t],
+        ({ st with fs := s.1, nextName := st.nextName + 1, temps := if st.temps.contains t then st.temps else st.temps ++ [t],
                    alt := if done then none else st.alt, corruptAny := if done then false else st.corruptAny },
          "err:hook", "ok")
   | ["ksave", spec, p] =>
     if !specOk spec || !(["creat", "write", "fsync", "close", "rename", "opendir", "hook", "none"].contains p) then (st, "bad-op", "ok")
     else if specBad spec then (st, "err", "ok")
     else
-      let t := st.nextName
+      let t := tempName st
       let before := opsBeforeKill p saveOps
       let done := renamed before
-      ({ st with fs := (run t (specBytes spec) before (st.fs, {})).1, nextName := t + 1, temps := st.temps ++ [t],
+      ({ st with fs := (run t (specBytes spec) before (st.fs, {})).1, nextName := st.nextName + 1, temps := if st.temps.contains t then st.temps else st.temps ++ [t],
                  alt := if done then none else st.alt, corruptAny := if done then false else st.corruptAny },
        if killedBy p saveOps then "killed" else "exited", "ok")
   | ["tsave", spec, us] =>
